@@ -160,9 +160,9 @@ func cmdRun(args []string) {
 			b, rerr := os.ReadFile(out)
 			if rerr != nil {
 				se := stderr.String()
-				if j.CrashIsViolation && errs[i] == "" && (strings.Contains(se, "fatal error") || strings.Contains(se, "checkptr") || strings.Contains(se, "SIGSEGV") || strings.Contains(se, "unexpected signal")) {
+				if j.CrashIsViolation && errs[i] == "" && (strings.Contains(se, "DATA RACE") || strings.Contains(se, "fatal error") || strings.Contains(se, "checkptr") || strings.Contains(se, "SIGSEGV") || strings.Contains(se, "unexpected signal")) {
 					results[i] = &hist.Result{Universe: j.Name, Property: *prop, Violations: []*hist.Violation{{Property: *prop, Universe: j.Name, Tier: *tier, Tags: []string{"crash"},
-						What: "the job process died with a runtime fatal error while exploring " + j.Name, Expected: "no pointer-validity or memory fault", Observed: strings.TrimSpace(firstLines(se, 12))}}}
+						What: "the job process died (runtime fatal error or race detector report) while exploring " + j.Name, Expected: "no runtime fatal error (pointer validity, memory fault) and no data race report", Observed: strings.TrimSpace(firstLines(se, 12))}}}
 					return
 				}
 				if errs[i] == "" {
